@@ -153,7 +153,7 @@ class SPLoad(FSContract):
         interp.ctx.fault_reads = True
         jid = z3.Const("job_id_arg", Id)
         interp.ex.assume(CALC(NONEV) != jid)   # ids are hashes of mappings; None hashes to md5('null'), never a job's id (assumed)
-        return [sd, SId(jid)], {}, {"p": proj.p, "me": job.me, "jid": jid, "sd": sd}
+        return [sd, SId(jid)], {}, {"p": proj.p, "me": job.me, "jid": jid, "sd": sd, "data0": data}
 
     def post(self, interp, case, pre, outcome):
         from signac.errors import JobsCorruptedError
@@ -170,6 +170,8 @@ class SPLoad(FSContract):
                           z3.And(v.e == parsed(Node.data(n)), CALC(v.e) == jid, spv_of(sd) == v.e))
         else:
             exc = outcome[1]
+            # a rejected file must not leak into the in-memory state point (init(force=True) / repair write that back to disk)
+            ex.oblige(self.oname("raises:in_memory_state_point_unchanged_when_the_file_is_rejected"), spv_of(sd) == pre["data0"])
             if isinstance(exc, JobsCorruptedError):
                 ex.oblige(self.oname("raises:JobsCorruptedError_only_if_file_missing_unparsable_or_hash_mismatch"), z3.Not(ok))
                 ids = getattr(exc, "job_ids", None)
@@ -1114,6 +1116,10 @@ class UpdateStatepoint(FSContract):
                 return SSPCopy(spv_of(o))
             return orig(interp, o, name, args, kw, via_super)
         ctx.dep_call = dep_call
+        # callee view of Job.cached_statepoint (CachedStatepoint): a read-only view of whatever the handle has cached
+        ctx.callee_contracts[f"{JOB}.Job.cached_statepoint"] = lambda interp, b: ("proxy", b["self"].fields["_cached_statepoint"])
+        od = ctx.dictify
+        ctx.dictify = lambda interp, v: SSPCopy(spv_of(v[1])) if isinstance(v, tuple) and v and v[0] == "proxy" else od(interp, v)
         return ctx
 
     def setup(self, interp, case):
